@@ -12,6 +12,7 @@ package core
 
 import (
 	"fmt"
+	"os"
 	"sort"
 	"strings"
 	"testing"
@@ -128,6 +129,89 @@ func c16sBody(t *testing.T, im *c16sImage, ops []string) sched.Body {
 	}
 }
 
+// c16sCfgBody: the CRL configuration is switched from auto_rebuild=on to off while another
+// request that consults that configuration (OCSP, a certificate status read, a revocation
+// of another serial) is in flight. After both have finished the configuration API is
+// asked; if it says auto_rebuild is off, a revocation follows and the CRL served right
+// after it must list the serial (last sentence of the statement) - whatever the
+// interleaving of the configuration write with the reader was.
+func c16sCfgBody(t *testing.T, im *c16sImage, reader string, noCache bool) sched.Body {
+	img := *im.img
+	img.Opt.NoCache = noCache
+	return func(sc *sched.Scheduler) func(x *sched.Exec) {
+		s := Boot(t, &img)
+		w := c16NewWorld(t, s)
+		for _, c := range im.certs {
+			cc := *c
+			w.certs = append(w.certs, &cc)
+		}
+		s.Must(s.Req(s.Root, logical.UpdateOperation, "pki/config/crl", map[string]interface{}{"auto_rebuild": true, "enable_delta": false}))
+		// make sure the engine has the "on" configuration loaded
+		_, _ = w.certStatusRevoked(w.certs[1])
+		cfgOK := false
+		sc.Go("cfg", func() {
+			r, e := s.Req(s.Root, logical.UpdateOperation, "pki/config/crl", map[string]interface{}{"auto_rebuild": false, "enable_delta": false})
+			cfgOK = OK(r, e)
+		})
+		sc.Go("reader", func() {
+			switch reader {
+			case "ocsp":
+				_, _ = w.ocspRevoked(w.certs[1])
+			case "status":
+				_, _ = w.certStatusRevoked(w.certs[1])
+			case "revoke1":
+				_, _ = w.revoke(1)
+			case "crl":
+				_, _, _ = w.crl("i1")
+			}
+		})
+		return func(x *sched.Exec) {
+			defer s.Close()
+			v := &Verdict{}
+			x.Obs = v
+			resp, err := s.Req(s.Root, logical.ReadOperation, "pki/config/crl", nil)
+			auto := true
+			if OK(resp, err) && resp != nil && resp.Data != nil {
+				auto, _ = resp.Data["auto_rebuild"].(bool)
+			}
+			v.Outcome = fmt.Sprintf("cfg=%v auto=%v", cfgOK, auto)
+			if os.Getenv("VERIF_DEBUG") != "" {
+				for _, tr := range x.Trace {
+					if strings.HasPrefix(tr, "reader:get:") && strings.HasSuffix(tr, "/config/crl") {
+						fmt.Printf("DEBUG reader reloaded config: %v\n", canonTrace(x.Trace))
+						break
+					}
+				}
+			}
+			if !cfgOK || auto {
+				return
+			}
+			if ok, txt := w.revoke(0); !ok {
+				v.Sig, v.Violation = "c16:sched:revoke-refused", "revocation refused after the configuration change: "+txt
+				return
+			}
+			rl, _, cerr := w.crl("i1")
+			if cerr != nil {
+				v.Sig, v.Violation = "c16:sched:crl-fetch-failed", cerr.Error()
+				return
+			}
+			listed := false
+			if rl != nil {
+				for _, e := range rl.RevokedCertificateEntries {
+					if strings.EqualFold(strings.ReplaceAll(w.certs[0].serial, ":", ""), fmt.Sprintf("%x", e.SerialNumber)) ||
+						strings.EqualFold(strings.TrimLeft(strings.ReplaceAll(w.certs[0].serial, ":", ""), "0"), fmt.Sprintf("%x", e.SerialNumber)) {
+						listed = true
+					}
+				}
+			}
+			if !listed {
+				v.Sig = "c16:sched:crl-served-after-revoke-lacks-serial-with-auto-rebuild-off"
+				v.Violation = fmt.Sprintf("config/crl reports auto_rebuild=false; revoke(%s) returned success; the complete CRL of its issuer served right afterwards does not list it", w.certs[0].serial)
+			}
+		}
+	}
+}
+
 func c16PartS(t *testing.T, res *vout.Result, item *int) {
 	im := c16sBuild(t)
 	bound := 2
@@ -138,6 +222,13 @@ func c16PartS(t *testing.T, res *vout.Result, item *int) {
 	scen := [][]string{{"revoke0", "revoke0"}, {"revoke0", "revoke1"}, {"revoke0", "rotate"}}
 	if vout.Thorough() {
 		scen = append(scen, []string{"revoke0", "revoke0", "rotate"}, []string{"revoke0", "revoke0", "revoke1"})
+	}
+	// with and without the physical read cache (its per-key lock serialises a read of
+	// config/crl with the write in flight; disable_cache and cache misses do not)
+	for _, noCache := range []bool{false, true} {
+		for _, reader := range []string{"ocsp", "status", "revoke1", "crl"} {
+			exploreScenario(res, "c16", fmt.Sprintf("S:config-off||%s:nocache=%v", reader, noCache), map[string]interface{}{"reader": reader, "nocache": noCache}, c16sCfgBody(t, im, reader, noCache), bound, false, item)
+		}
 	}
 	for _, ops := range scen {
 		name := "S:" + strings.Join(ops, "+")
